@@ -1,9 +1,18 @@
 package vsched
 
-import "runtime"
+import (
+	"reflect"
+	"runtime"
+)
 
 // Chan is the controlled replacement of a Go channel. Outside a controlled execution it
 // falls back to a real channel so that instrumented code still works free-running.
+//
+// A channel made outside an execution (a package-level variable of the code under test: a token
+// pool, a limiter) and then used inside one is adopted by that execution: it is modelled like any
+// other channel, starting every execution from the contents it had when it was first adopted (the
+// state package initialisation left it in), so that executions stay independent and replayable and a
+// thread blocked on it is seen by the scheduler instead of hanging the process.
 type Chan[T any] struct {
 	id     int
 	cap    int
@@ -12,6 +21,47 @@ type Chan[T any] struct {
 	recvq  []*waiter[T]
 	sendq  []*waiter[T]
 	real   chan T
+	owner  *sched // execution that adopted a channel made outside one
+	snap   bool
+	init   []T
+}
+
+// live reports whether the operation must take the real-channel path; otherwise the channel is
+// (adopted and) modelled.
+func (c *Chan[T]) live(s *sched) bool {
+	if c == nil || c.real == nil {
+		return false
+	}
+	if s == nil || s.finished {
+		return true
+	}
+	if c.owner == s {
+		return false
+	}
+	if !c.snap {
+		c.snap = true
+	drain:
+		for {
+			select {
+			case v, ok := <-c.real:
+				if !ok {
+					break drain
+				}
+				c.init = append(c.init, v)
+			default:
+				break drain
+			}
+		}
+		for _, v := range c.init {
+			c.real <- v
+		}
+	}
+	c.owner = s
+	c.id = s.newObj(c)
+	c.buf = append([]T(nil), c.init...)
+	c.closed = false
+	c.recvq, c.sendq = nil, nil
+	return false
 }
 
 type waiter[T any] struct {
@@ -67,7 +117,7 @@ func blockForever(s *sched, kind opKind) {
 
 func (c *Chan[T]) Send(v T) {
 	s := cur
-	if c != nil && c.real != nil {
+	if c.live(s) {
 		c.real <- v
 		return
 	}
@@ -113,7 +163,7 @@ func removeWaiter[T any](q []*waiter[T], w *waiter[T]) []*waiter[T] {
 // Recv is `v, ok := <-c`.
 func (c *Chan[T]) Recv() (T, bool) {
 	s := cur
-	if c != nil && c.real != nil {
+	if c.live(s) {
 		v, ok := <-c.real
 		return v, ok
 	}
@@ -163,7 +213,7 @@ func (c *Chan[T]) Recv1() T {
 
 func (c *Chan[T]) Close() {
 	s := cur
-	if c != nil && c.real != nil {
+	if c.live(s) {
 		close(c.real)
 		return
 	}
@@ -186,7 +236,7 @@ func (c *Chan[T]) Len() int {
 	if c == nil {
 		return 0
 	}
-	if c.real != nil {
+	if c.live(cur) {
 		return len(c.real)
 	}
 	return len(c.buf)
@@ -203,6 +253,8 @@ func (c *Chan[T]) Cap() int {
 
 // SelCase is one communication clause of a select statement.
 type SelCase interface {
+	reflectCase() reflect.SelectCase
+	adopt(s *sched)
 	ready() bool
 	register(s *sched, p *pendingOp, st *selState, idx int)
 	exec() (interface{}, bool)
@@ -230,6 +282,50 @@ func As[T any](c *Chan[T], v interface{}) T {
 	}
 	return v.(T)
 }
+
+func (k *sendCase[T]) reflectCase() reflect.SelectCase {
+	var ch chan T
+	if k.c != nil {
+		if k.c.real == nil {
+			panic("vsched: controlled channel used outside an execution")
+		}
+		ch = k.c.real
+	}
+	return reflect.SelectCase{Dir: reflect.SelectSend, Chan: reflect.ValueOf(ch), Send: reflect.ValueOf(&k.v).Elem()}
+}
+
+func (k *recvCase[T]) reflectCase() reflect.SelectCase {
+	var ch chan T
+	if k.c != nil {
+		if k.c.real == nil {
+			panic("vsched: controlled channel used outside an execution")
+		}
+		ch = k.c.real
+	}
+	return reflect.SelectCase{Dir: reflect.SelectRecv, Chan: reflect.ValueOf(ch)}
+}
+
+// selectReal is a select statement outside a controlled execution: the real channels, the real runtime.
+func selectReal(hasDefault bool, cases []SelCase) (int, interface{}, bool) {
+	rc := make([]reflect.SelectCase, 0, len(cases)+1)
+	for _, k := range cases {
+		rc = append(rc, k.reflectCase())
+	}
+	if hasDefault {
+		rc = append(rc, reflect.SelectCase{Dir: reflect.SelectDefault})
+	}
+	i, v, ok := reflect.Select(rc)
+	if hasDefault && i == len(cases) {
+		return -1, nil, false
+	}
+	if rc[i].Dir == reflect.SelectRecv && v.IsValid() {
+		return i, v.Interface(), ok
+	}
+	return i, nil, false
+}
+
+func (k *sendCase[T]) adopt(s *sched) { k.c.live(s) }
+func (k *recvCase[T]) adopt(s *sched) { k.c.live(s) }
 
 func (k *sendCase[T]) ready() bool {
 	c := k.c
@@ -310,7 +406,10 @@ func (k *recvCase[T]) exec() (interface{}, bool) {
 func Select(hasDefault bool, cases ...SelCase) (int, interface{}, bool) {
 	s := active()
 	if s == nil {
-		panic("vsched: select outside a controlled execution is not supported")
+		return selectReal(hasDefault, cases)
+	}
+	for _, k := range cases {
+		k.adopt(s)
 	}
 	p := &pendingOp{kind: opSelect}
 	st := &selState{chosen: -2}
